@@ -57,10 +57,13 @@ fn scenario_for(base: u64, scen: u64, small: bool) -> (Scenario, usize, Vec<Stri
     let log_pm = *rng.pick(&[0u64, 1000]);
     sc.history
         .push(Step::Cmds(vec![redo_cmd(rng, prog, &[g.top()], 3, log_pm)]));
-    // recovery, then an edit and a rebuild
+    // recovery, then an edit and a rebuild; with log capture in every other
+    // scenario (what a killed run leaves under .redo/ must not block the logs
+    // of later builds either)
     let targets = vec![g.top()];
+    let rlog = if scen % 2 == 1 { "1" } else { "0" };
     sc.history.push(Step::Cmds(vec![Cmd {
-        env: vec![("REDO_LOG".into(), "0".into())],
+        env: vec![("REDO_LOG".into(), rlog.into())],
         ..Cmd::new(&["redo-ifchange", &g.top()])
     }]));
     let s = g.sources[0].clone();
@@ -69,7 +72,7 @@ fn scenario_for(base: u64, scen: u64, small: bool) -> (Scenario, usize, Vec<Stri
         bytes: source_content(&s, 7),
     });
     sc.history.push(Step::Cmds(vec![Cmd {
-        env: vec![("REDO_LOG".into(), "0".into())],
+        env: vec![("REDO_LOG".into(), rlog.into())],
         ..Cmd::new(&["redo-ifchange", &g.top()])
     }]));
     (sc, build_group, targets)
